@@ -75,6 +75,13 @@ CLIENTS = {
     "dotted": "import os.path\nimport collections.abc\nprint(os.getcwd() != '', isinstance([], collections.abc.Sequence))\n",
     "same_alias": "from legacy import load as x\nfrom modern import load as y\nprint(x(1), y(2))\n",
     "missing": "print(os.sep == '/', json.dumps([1]))\n",
+    "local_aliases": "def f():\n    import legacy as first\n    return first.parse(1)\n\n\ndef g():\n    import legacy as second\n    return second.load(2)\n\n\nprint(f(), g())\n",
+    "local_from_aliases": "def f():\n    from os import path\n    return path.basename('/a/b')\n\n\ndef g():\n    from os import path as osp\n    return osp.dirname('/a/b')\n\n\nprint(f(), g())\n",
+    "local_stdlib_aliases": ("def f():\n    import datetime as dt\n    return dt.date(2020, 1, 2).year\n\n\ndef g():\n    import datetime as dtm\n    return dtm.date(2020, 1, 2).month\n\n\n"
+                             "def h():\n    import datetime\n    return datetime.date(2020, 1, 2).day\n\n\nprint(f(), g(), h())\n"),
+    "guarded": ("try:\n    import json as serializer\nexcept ImportError:\n    serializer = None\nif serializer:\n    import os as operating\nelse:\n    operating = None\n"
+                "print(serializer.dumps([1]), operating.sep == '/')\n"),
+    "toplevel_then_local": "import legacy\n\n\ndef f():\n    import legacy as lg\n    from legacy import load as ld\n    return lg.parse(1), ld(2), legacy.load(3)\n\n\nprint(f())\n",
 }
 RULES = ["format_code", "tracing.fix_starred_imports", "tracing.fix_reimported_names", "fixes.remove_unused_imports", "fixes.fix_duplicate_imports", "fixes.sort_imports",
          "fixes.move_imports_to_toplevel", "fixes.add_missing_imports"]
@@ -153,8 +160,8 @@ def tree_oracle(ctx):
                                         "what": f"{rule} on client '{cname}': the client resolves names differently afterwards ({before[1].strip()[:80]!r} -> {after[1].strip()[:80]!r}, rc {after[0]})"})
     finally:
         shutil.rmtree(d, ignore_errors=True)
-    s.note = ("an 8-module package tree on disk (package __init__ re-exporting with __all__, two modules defining the same name with and without __all__, a 3-step re-export chain) x 9 clients "
-              "(two star imports, star from a package, re-exports, aliases, duplicates, imports inside a function, dotted stdlib, same alias, missing imports) x 8 import rules / format_code, "
+    s.note = ("an 8-module package tree on disk (package __init__ re-exporting with __all__, two modules defining the same name with and without __all__, a 3-step re-export chain) x 14 clients "
+              "(two star imports, star from a package, re-exports, aliases, duplicates, imports inside a function - also under different aliases -, guarded imports, dotted stdlib, same alias, missing imports) x 8 import rules / format_code, "
               "each in a fresh interpreter inside the tree: client output before == after")
     return s
 
